@@ -83,7 +83,7 @@ func NewCtx(prop, tier string) *Ctx {
 		}
 	}
 	return &Ctx{Prop: prop, Tier: tier, Seed: seed, Work: work, Started: time.Now(),
-		distinct: map[string]struct{}{}, extra: map[string]interface{}{}, level: "model_checking"}
+		distinct: map[string]struct{}{}, extra: map[string]interface{}{}, level: "model_checking", assume: []string{}, known: []string{}}
 }
 
 func (c *Ctx) Thorough() bool { return c.Tier == "thorough" }
